@@ -161,21 +161,9 @@ func (c *Ctx) c04Allocations(rule string, fns []*ssa.Function, floor int) {
 							ok, why = c.boundedSize(l2, ms, sz)
 						} else {
 							// the function never reads the limit: bound the parameter itself symbolically
-							for i, p := range fn.Params {
-								if core.StripConv(sz) == ssa.Value(p) {
-									ok, why = true, "equals parameter "+p.Name()+", which every call site bounds by the message limit (lifted precondition)"
-									_ = i
-								}
-								if ph, isPhi := sz.(*ssa.Phi); isPhi {
-									all := true
-									for _, e := range ph.Edges {
-										if _, isC := core.ConstInt(e); !isC && e != ssa.Value(p) {
-											all = false
-										}
-									}
-									if all {
-										ok, why = true, "is parameter "+p.Name()+" or a constant; every call site bounds the parameter by the message limit (lifted precondition)"
-									}
+							for _, p := range fn.Params {
+								if paramOrConst(sz, p, 0) {
+									ok, why = true, "is parameter "+p.Name()+" or a constant (through phi / min / max); every call site bounds the parameter by the message limit (lifted precondition)"
 								}
 							}
 						}
@@ -187,7 +175,8 @@ func (c *Ctx) c04Allocations(rule string, fns []*ssa.Function, floor int) {
 	}
 	// call sites of the lifted precondition  arg <= MaxMessageSize
 	seen := map[string]bool{}
-	for _, lf := range lifts {
+	for qi := 0; qi < len(lifts) && qi < 64; qi++ {
+		lf := lifts[qi]
 		k := fkey(lf.fn) + sprintf(":%d", lf.idx)
 		if seen[k] {
 			continue
@@ -199,6 +188,17 @@ func (c *Ctx) c04Allocations(rule string, fns []*ssa.Function, floor int) {
 			arg := site.Common().Args[lf.idx]
 			t, off := l.Expr(arg)
 			ok := false
+			if fwd, isParam := core.StripConv(arg).(*ssa.Parameter); isParam && !token.IsExported(caller.Name()) && caller.Parent() == nil && len(c.P.CallSitesOf(caller)) > 0 && len(maxTerms(l)) == 0 {
+				// a helper that forwards its own parameter: lift the precondition to its callers
+				for i, q := range caller.Params {
+					if q == fwd {
+						lifts = append(lifts, lifted{caller, i})
+					}
+				}
+				n++
+				R.OK(rule, fkey(caller)+":precondition:"+fkey(lf.fn)+"("+lf.fn.Params[lf.idx].Name()+"<=limit)", c.at(site), "call site bounds the size it hands to "+fkey(lf.fn)+" by the message limit", "the argument is the caller's own parameter "+fwd.Name()+": lifted on to the callers of "+fkey(caller))
+				continue
+			}
 			// make sure the limit is a term of the caller
 			mts := maxTerms(l)
 			for _, m := range mts {
@@ -220,6 +220,13 @@ func (c *Ctx) inputReaders() map[*ssa.Function]bool {
 		if core.MethodIs(fn, pkBuffer, "Reader", fn.Name()) {
 			switch fn.Name() {
 			case "ReadType", "ReadMsgSize", "ReadUntypedMsg", "ReadTypedMsg", "Slurp", "GetString", "GetBytes", "GetUint16", "GetUint32", "GetPrepareType":
+				out[fn] = true
+			}
+		}
+	}
+	for _, fn := range c.P.ScopeFuncs() { // any helper that reads the byte source itself
+		for _, ci := range core.Calls(fn) {
+			if core.FuncIs(core.StaticCallee(ci), "io", "ReadFull") && core.ErrorResultIndex(fn.Signature) >= 0 {
 				out[fn] = true
 			}
 		}
@@ -253,6 +260,12 @@ func definedOutside(v ssa.Value, l *core.Loop) bool {
 		if inv {
 			return true
 		}
+	}
+	if inner, ok := core.IsLenOf(core.StripConv(v)); ok {
+		return definedOutside(inner, l) // len of a collection that does not change inside the loop
+	}
+	if cv, ok := v.(*ssa.Convert); ok {
+		return definedOutside(cv.X, l)
 	}
 	switch x := v.(type) {
 	case *ssa.Const, *ssa.Parameter, *ssa.FreeVar, *ssa.Global:
@@ -518,4 +531,37 @@ func (c *Ctx) c04NoFabricatedData(rule string) {
 		}
 	}
 	R.Floor(rule, "message accessor call sites", n, 30)
+}
+
+// paramOrConst: v is the parameter, an integer constant, or a phi / min / max of such values.
+func paramOrConst(v ssa.Value, p *ssa.Parameter, depth int) bool {
+	if depth > 4 {
+		return false
+	}
+	v = core.StripConv(v)
+	if v == ssa.Value(p) {
+		return true
+	}
+	if _, ok := core.ConstInt(v); ok {
+		return true
+	}
+	switch x := v.(type) {
+	case *ssa.Phi:
+		for _, e := range x.Edges {
+			if !paramOrConst(e, p, depth+1) {
+				return false
+			}
+		}
+		return true
+	case *ssa.Call:
+		if n := core.BuiltinName(&x.Call); n == "min" || n == "max" {
+			for _, a := range x.Call.Args {
+				if !paramOrConst(a, p, depth+1) {
+					return false
+				}
+			}
+			return true
+		}
+	}
+	return false
 }
